@@ -796,7 +796,7 @@ func report(p *Loaded, verif, prop, tier string, seed int, pc *PropConfig, resul
 				// a safety / range / unwinding / call-site-precondition obligation that is no longer
 				// generated means the operation is gone from the code: nothing is lost (the
 				// postconditions that depended on a removed call fail on their own).
-				if cl := oblClass(line); cl == "S" || cl == "R" || cl == "U" || cl == "P" {
+				if cl := oblClass(line); (cl == "S" || cl == "R" || cl == "U" || cl == "P") && !strings.Contains(line, "#P:call:") {
 					notGenerated = append(notGenerated, line)
 					continue
 				}
@@ -1027,7 +1027,7 @@ func generatedNote(p *Loaded) string {
 	if n == 0 {
 		return ""
 	}
-	return fmt.Sprintf("%d round-trip lemmas generated on this run from the type declarations of nasType / nasMessage of the tree under verification (cmd/govc/nasgen.go)", n)
+	return fmt.Sprintf("%d round-trip lemmas generated on this run from the type declarations of nasType / nasMessage of the tree under verification (cmd/govc/nasgen.go); accessor sweep: %d bit-field accessor pairs under a generated lemma, %d accessors outside it (fields spanning octets, arrays, lengths)", n, nasAccCovered, nasAccSkipped)
 }
 
 // msgTypeObligations: the MsgType constants of package nas and the <Message><IE>Type constants of
